@@ -170,7 +170,7 @@ fn exhaustive(thorough: bool) -> Vec<Value> {
         json!({"a": "has", "k": 1}),
         json!({"a": "tick", "d": 1}),
     ];
-    for (ttl, n) in if thorough { vec![(1, 6), (2, 7), (3, 6)] } else { vec![(1, 4), (2, 4), (3, 4)] } {
+    for (ttl, n) in if thorough { vec![(1, 6), (2, 7), (3, 6)] } else { vec![(1, 4), (2, 5)] } {
         for ops in seqs(&alpha, n) {
             if ops.iter().any(|o| o["a"] == "ins") {
                 out.push(json!({"kind": "dup", "ttl": ttl, "ops": ops}));
